@@ -23,6 +23,7 @@ import (
 type jpegBase struct {
 	head []byte // SOI .. end of SOS header
 	data []byte // entropy-coded segment, without EOI
+	mcus int    // 16x16 MCUs of the 4:2:0 image
 }
 
 var (
@@ -57,7 +58,7 @@ func jpegTable() []jpegBase {
 						panic(err)
 					}
 					b := buf.Bytes()
-					jpegBases = append(jpegBases, jpegBase{head: b[:len(b)-2-len(j.Data)], data: j.Data})
+					jpegBases = append(jpegBases, jpegBase{head: b[:len(b)-2-len(j.Data)], data: j.Data, mcus: ((d[0] + 15) / 16) * ((d[1] + 15) / 16)})
 				}
 			}
 		}
@@ -145,15 +146,28 @@ func sameJPEG(in, out []byte) (bool, string) {
 func init() {
 	register(&Format{
 		Name: "rtpmjpeg", Stateful: true, Video: true, Family: WholeFrame, Blob: true, FixedPT: 26, LimitBound: true,
-		MarkerEndsFrame: true, MaxFrameSize: 1 << 24, Params: one, Same: sameJPEG,
+		MarkerEndsFrame: true, MaxFrameSize: 1 << 24, Same: sameJPEG,
+		Params: []Params{{Label: "default"}, {Label: "restart-interval", Variant: "dri"}},
 		Grammar: "image = baseline JPEG written by image/jpeg (8 bit, YCbCr 4:2:0, two quantisation tables, standard Huffman tables), " +
 			"dimensions multiple of 8 up to 2040, qualities 15/60/92, flat..noisy content; quantiser values of the last 16 chroma " +
 			"entries carry the frame counter; exact entropy-segment length reached with FF fill bytes before EOI; unit size = " +
-			"entropy-coded segment incl. EOI (what is fragmented)",
-		// first packet: 8 (main header) + 4 + 128 (quantisation table header); at limit 140 it carries no data
-		MinLimit: constInt(141),
-		MinUnit:  func(Params) int { return len(jpegTable()[0].data) + 2 },
-		Strategy: func(_ Params, m int) Strategy { return Strategy{Single: m - 140, FragFirst: m - 140, FragNext: m - 8} },
+			"entropy-coded segment incl. EOI (what is fragmented); restart-interval: the same with a DRI segment whose interval is the " +
+			"number of MCUs of the image (so no RSTn marker is due) - the encoder then sends RFC 2435 types 64..127 with a restart header",
+		// first packet: 8 (main header) [+ 4 restart header] + 4 + 128 (quantisation table header); a first
+		// packet without room for data would repeat fragment offset 0
+		MinLimit: func(p Params) int {
+			if p.Variant == "dri" {
+				return 145
+			}
+			return 141
+		},
+		MinUnit: func(Params) int { return len(jpegTable()[0].data) + 2 },
+		Strategy: func(p Params, m int) Strategy {
+			if p.Variant == "dri" {
+				return Strategy{Single: m - 144, FragFirst: m - 144, FragNext: m - 12}
+			}
+			return Strategy{Single: m - 140, FragFirst: m - 140, FragNext: m - 8}
+		},
 		NewEncoder: func(_ Params, c EncConf) (EncodeFunc, error) {
 			e := &rtpmjpeg.Encoder{SSRC: &c.SSRC, InitialSequenceNumber: &c.InitialSequenceNumber, PayloadMaxSize: c.PayloadMaxSize}
 			return blobEnc(e.Encode), e.Init()
@@ -162,7 +176,7 @@ func init() {
 			d := &rtpmjpeg.Decoder{}
 			return blobDec(d.Decode), d.Init()
 		},
-		Gen: func(r *rand.Rand, _ Params, sizes []int, counter uint64) [][]byte {
+		Gen: func(r *rand.Rand, p Params, sizes []int, counter uint64) [][]byte {
 			tab := jpegTable()
 			want := sum(sizes) - 2 // without EOI
 			hi := sort.Search(len(tab), func(i int) bool { return len(tab[i].data) > want })
@@ -170,8 +184,14 @@ func init() {
 			if hi > 0 { // one of the (up to 6) largest bases that fit
 				b = tab[hi-1-r.Intn(min(hi, 6))]
 			}
-			out := make([]byte, 0, len(b.head)+max(want, len(b.data))+2)
-			out = append(out, b.head...)
+			out := make([]byte, 0, len(b.head)+max(want, len(b.data))+8)
+			if sof := bytes.Index(b.head, []byte{0xFF, 0xC0}); p.Variant == "dri" && sof > 0 {
+				ri := min(b.mcus, 65535)
+				out = append(append(out, b.head[:sof]...), 0xFF, 0xDD, 0, 4, byte(ri>>8), byte(ri))
+				out = append(out, b.head[sof:]...)
+			} else {
+				out = append(out, b.head...)
+			}
 			if counter != 0 { // 16 nibbles into the last 16 quantisers of table 1 (values 1..16)
 				if i := bytes.Index(out, []byte{0xFF, 0xDB}); i >= 0 {
 					q := out[i+4+65+1+48:]
@@ -224,7 +244,7 @@ func init() {
 		Name: "rtpklv", Stateful: true, Family: WholeFrame, Blob: true, FixedPT: -1, LimitBound: true, MarkerEndsFrame: true,
 		Params: []Params{{Label: "single-item"}, {Label: "multi-item", Variant: "multi"}},
 		Grammar: "KLVunit = 1 KLV item (single-item) or 1..n items (multi-item; RFC 6597: a KLVunit is one or more KLV items); item = " +
-			"16-byte universal label 06 0e 2b 34 + 12 PRNG bytes, BER length (short form or long form 81..84, also non-minimal), value; " +
+			"16-byte universal label 06 0e 2b 34 + 12 PRNG bytes, BER length (short form or long form 81..88, also non-minimal), value; " +
 			"size vector = item sizes (single-item: their sum)",
 		// the decoder recognises the start of a unit by the 4-byte label prefix
 		MinLimit: constInt(4), MinUnit: constInt(17),
@@ -248,9 +268,9 @@ func init() {
 				n = max(n, 17)
 				// feasible BER forms for a total of n bytes: k length-of-length bytes (0 = short form)
 				var forms []int
-				for k := 0; k <= 4; k++ {
+				for k := 0; k <= 8; k++ {
 					v := n - 17 - k
-					if v >= 0 && (k == 0 && v <= 127 || k > 0 && v < 1<<(8*k)) {
+					if v >= 0 && (k == 0 && v <= 127 || k > 0 && (k >= 4 || v < 1<<(8*k))) {
 						forms = append(forms, k)
 					}
 				}
